@@ -728,7 +728,7 @@ fn parse_json_filter(input: &[u8], output: &mut [u8]) -> Result<(usize, usize), 
         eat_whitespace_and_commas(input, &mut inpos);
 
         // Check for end
-        if input[inpos] == b'}' {
+        if peek(input, inpos)? == b'}' {
             inpos += 1;
             break;
         }
@@ -871,7 +871,7 @@ fn parse_json_filter(input: &[u8], output: &mut [u8]) -> Result<(usize, usize), 
         // `inpos` is right after the open bracket of the array
         loop {
             eat_whitespace_and_commas(input, &mut inpos);
-            if input[inpos] == b']' {
+            if peek(input, inpos)? == b']' {
                 break;
             }
             read_id(input, &mut inpos, &mut output[end..])?;
@@ -889,7 +889,7 @@ fn parse_json_filter(input: &[u8], output: &mut [u8]) -> Result<(usize, usize), 
         // `inpos` is right after the open bracket of the array
         loop {
             eat_whitespace_and_commas(input, &mut inpos);
-            if input[inpos] == b']' {
+            if peek(input, inpos)? == b']' {
                 break;
             }
             read_pubkey(input, &mut inpos, &mut output[end..])?;
@@ -911,7 +911,7 @@ fn parse_json_filter(input: &[u8], output: &mut [u8]) -> Result<(usize, usize), 
         // `inpos` is right after the open bracket of the array
         loop {
             eat_whitespace_and_commas(input, &mut inpos);
-            if input[inpos] == b']' {
+            if peek(input, inpos)? == b']' {
                 break;
             }
             let u = read_u64(input, &mut inpos)?;
@@ -974,7 +974,7 @@ fn parse_json_filter(input: &[u8], output: &mut [u8]) -> Result<(usize, usize), 
             let mut count: u16 = 1; // the tag letter itself counts
             loop {
                 eat_whitespace_and_commas(input, &mut inpos);
-                if input[inpos] == b']' {
+                if peek(input, inpos)? == b']' {
                     break;
                 }
                 verify_char(input, b'"', &mut inpos)?;
@@ -983,7 +983,9 @@ fn parse_json_filter(input: &[u8], output: &mut [u8]) -> Result<(usize, usize), 
                 // write len
                 put(output, end, (outlen as u16).to_ne_bytes().as_slice())?;
                 end += 2 + outlen;
-                inpos += inlen + 1;
+                // pass the string and its end quote (missing if the input ended)
+                inpos += inlen;
+                verify_char(input, b'"', &mut inpos)?;
                 count += 1;
             }
 
